@@ -30,6 +30,9 @@ def run(ck):
     else:
         cases = sc.gen_objects(ck, 120 if ck.thorough else 14)
 
+        # a distribution fed with finite values whose squares overflow (known finding)
+        cases += [("DISTX", 0, ck.rng.randint(1, 2**31 - 1), s) for s in (0, 5)]
+
     sset = sc.sset_lines(harness)
     hl = ["GEN %s %d %d %d" % c for c in cases]
     hout, crashes = pc.run_harness_resilient(harness, hl)
@@ -91,7 +94,8 @@ def run(ck):
         if problems:
             replay.update({"original": dump0c, "reloaded": dump1, "save": sc.unhex(save0).decode("latin1"),
                            "resave": sc.unhex(save1).decode("latin1"), "problems": problems})
-            ck.add_violation("%s:roundtrip" % t, "%s built by history %s: %s" % (t, c[1:], "; ".join(problems)), replay)
+            key = "DIST:nonfinite-moments" if t == "DISTX" and "inf" in replay["save"] else "%s:roundtrip" % t
+            ck.add_violation(key, "%s built by history %s: %s" % (t, c[1:], "; ".join(problems)), replay)
         # ---- correspondence
         if msave.get(i) != save0:
             ck.add_diff({"case": list(c), "what": "save bytes"}, sc.unhex(msave.get(i, "-") if not msave.get(i, "").startswith("ERR") else "-").decode("latin1")[:400],
